@@ -516,6 +516,38 @@ class PathEnumerator:
             live = nxt
         return [r for _, r in done] + live
 
+    def _flag_quantifier(self, name: str, st: ast.For, it: Term, body_paths: List[Path], p: Path, fr: Frame) -> Optional[Term]:
+        from .sym import t_or
+        init = None
+        for e in p.events:
+            pass
+        init = [e for e in p.events if e.kind == "loop"][-1].extra["init_env"].get(name)
+        if init not in (TRUE, FALSE):
+            return None
+        acc = ("loopvar", name, st.lineno)
+        flips = []
+        for bp in body_paths:
+            if bp.exit not in ("fall", "continue", "break"):
+                return None
+            nv = bp.env.get(name)
+            if nv == acc:
+                if bp.exit == "break":
+                    return None     # leaving early without deciding the flag: not a plain quantifier
+                continue
+            if nv != (FALSE if init == TRUE else TRUE):
+                return None
+            flips.append(bp.cond)
+        if not flips:
+            return None
+        elem = ("bound", "for", st.lineno, show(it))
+        cb = ("bound", fr.depth, 0, show(it))
+        cond = subst(t_or(*flips) if len(flips) > 1 else flips[0], {elem: cb})
+        if subterms(cond, lambda x: x[0] == "loopvar" and x[2] == st.lineno):
+            return None
+        if init == TRUE:
+            return ("quant", "all", ("comp", "gen", t_not(cond), ((it, ()),)))
+        return ("quant", "any", ("comp", "gen", cond, ((it, ()),)))
+
     def _unrolled_terms(self, st: ast.For, items: List[Term], p: Path, fr: Frame) -> List[Path]:
         live, done = [p], []
         for v in items:
@@ -588,9 +620,15 @@ class PathEnumerator:
             body_paths.append(Path(skip_cond, [], dict(body_env)))      # elements the generator filters out: body not run
         p.events.append(Event("loop", st, it, extra=dict(paths=body_paths, init_env=dict(p.env), assigned=assigned,
                                                           test=cond0 if isinstance(st, ast.While) else None)))
-        # after the loop: loop-carried variables are unknown
+        # after the loop: loop-carried variables are unknown ...
         for n in assigned:
             p.env[n] = ("after", n, st.lineno)
+        # ... except a boolean flag that only ever flips one way: ``ok = True; for e in D: if bad(e): ok = False [; break]`` is all(not bad(e) for e in D)
+        if isinstance(st, ast.For) and it is not None and (not isinstance(st, ast.For) or mapped is None):
+            for n in assigned:
+                q = self._flag_quantifier(n, st, it, body_paths, p, fr)
+                if q is not None:
+                    p.env[n] = q
         outs = [p]
         # a return/raise inside the loop body is a possible exit of the enclosing function
         for bp in body_paths:
